@@ -256,11 +256,8 @@ def _check(desc: int, dflt: int, flg: int, fmt: int, var: int, intro: bool) -> b
     return False
 
 
-def check_schema_after_client_run(desc: int, flg: int, fmt: int, earlier_schema_run: bool) -> bool:
-    """
-    post: _
-    """
-    a, c, e = pick(desc, 3), pick(flg, NFLAG), pick(fmt, NFMT)
+def _history_check(desc: int, flg, fmt, earlier_schema_run: bool) -> bool:
+    a, c, e = desc, pick(flg, NFLAG), pick(fmt, NFMT)
     h = 2 if earlier_schema_run else 1
     with NoTracing():
         with opened_auditwall():
@@ -275,7 +272,10 @@ def check_schema_after_client_run(desc: int, flg: int, fmt: int, earlier_schema_
 
 
 def parts_source() -> str:
-    out = ["from harness.C16_schema import _check", ""]
+    out = ["from harness.C16_schema import _check, _history_check", ""]
+    for hist in (False, True):
+        for desc in range(3):
+            out.append(f"def check_schema_history_{int(hist)}_s{desc}(flg: int, fmt: int) -> bool:\n    \"\"\"\n    post: _\n    \"\"\"\n    return _history_check({desc}, flg, fmt, {hist})\n")
     for dflt in range(len(DEFAULTS)):
         for desc in range(3):
             out.append(f"def check_schema_d{dflt}_s{desc}(flg: int, fmt: int, var: int, intro: bool) -> bool:\n    \"\"\"\n    post: _\n    \"\"\"\n    return _check({desc}, {dflt}, flg, fmt, var, intro)\n")
